@@ -389,8 +389,40 @@ def _inputs():
         m = [[0, 1, 0], [0, 0, 1], [1, 0, 0]]
         u = adjmatrix.load_adj_matrix(m, vs)
         return m, lambda: (m[0].__setitem__(0, 1), m.pop(), vs.reverse(), vs.pop())
+    def link_vertices(w):
+        # the n-ary base class of all links, as a user subclass: Link(vertices=[...])
+        from edgegraph.structure.link import Link
+
+        class Hyper(Link):
+            pass
+        a, b, c, d = Vertex(), Vertex(), Vertex(), Vertex()
+        lst = [a, b, c]
+        h = Hyper(vertices=lst)
+        w.extra = lambda: [w.id_of(x) for x in h.vertices]
+        return lst, lambda: (lst.append(d), lst.reverse())
+
+    def link_vertices_written_back(w):
+        # ... and the other direction: editing the LINK must not edit the list the caller passed
+        from edgegraph.structure.link import Link
+
+        class Hyper(Link):
+            pass
+        a, b, c = Vertex(), Vertex(), Vertex()
+        lst = [a, b]
+        h = Hyper(vertices=lst)
+        w.extra = lambda: [w.id_of(x) for x in lst]
+        w.extra_only = True          # the link is edited on purpose: only the caller's list is compared
+        return lst, lambda: (h.add_vertex(c), h.unlink_from(a))
+
+    def edge_attributes(w):
+        a, b = Vertex(), Vertex()
+        d = {"w": 1}
+        e = DirectedEdge(a, b, attributes=d)
+        w.extra = lambda: {"w": getattr(e, "w", None), "x": hasattr(e, "x")}
+        return d, lambda: d.update(w=2, x=3)
     return {f.__name__: f for f in (vertex_links, vertex_universes, vertex_attributes, universe_vertices, laws_whitelist,
-                                    laws_whitelist_inner_clear, adj_dict, adj_matrix)}
+                                    laws_whitelist_inner_clear, adj_dict, adj_matrix, link_vertices, link_vertices_written_back,
+                                    edge_attributes)}
 
 
 class InputContainers(Leg):
@@ -402,8 +434,8 @@ class InputContainers(Leg):
     rule = ("every constructor / builder container argument (links=, universes=, attributes=, vertices=, edge_whitelist= at both "
             "levels, adjacency dict, adjacency matrix and side array): the caller edits it after construction; the built objects' "
             "snapshot and read-back must not change; caching off and on")
-    quick_n = 16
-    thorough_n = 16
+    quick_n = 22
+    thorough_n = 22
 
     def generate(self, rng, n):
         for name in _inputs():
@@ -416,10 +448,11 @@ class InputContainers(Leg):
             Vertex.NEIGHBOR_CACHING = case["caching"]
             w.extra = lambda: None
             cont, mutate = _inputs()[case["input"]](w)
-            before = (w.snapshot(), w.extra())
+            only = w.__dict__.get("extra_only")
+            before = (None if only else w.snapshot(), w.extra())
             kept = any(cont is val for o in w.objs if hasattr(o, "__dict__") for val in vars(o).values())
             mutate()
-            after = (w.snapshot(), w.extra())
+            after = (None if only else w.snapshot(), w.extra())
             return {"same": before == after, "kept": kept, "diff": None if before == after else _first_diff({"s": before[0], "x": before[1]}, {"s": after[0], "x": after[1]})}
         finally:
             w.close()
